@@ -9,6 +9,7 @@ THEOREMS = ["Rink.Spec.divPow_get", "Rink.Spec.fastDecompose_spec", "Rink.Spec.p
 
 TARGET_THEOREMS = ["Rink.Spec.C06T.target_denotes", "Rink.Spec.C06T.conversion_displays_top", "Rink.Spec.C06T.namesVal_merge",
                    "Rink.Spec.C06T.namesVal_pow", "Rink.Spec.C06T.namesVal_recip"]
+DIMS_THEOREMS = ["Rink.Spec.C06T.target_dims", "Rink.Spec.C06T.namesGet_merge", "Rink.Spec.C06T.namesGet_pow"]
 
 def unhexs(h):
     return None if h == "-" else bytes.fromhex(h).decode("utf-8", "replace")
@@ -136,12 +137,13 @@ def run(c):
                       "numerals are read with the independent reader of checks/c05.py"]
     if not c.build_harness():
         return
-    if not c.build_lean(["Rink.Props.C06", "Rink.Props.C06Target", "rinkmodel"]):
+    if not c.build_lean(["Rink.Props.C06", "Rink.Props.C06Target", "Rink.Props.C06Dims", "rinkmodel"]):
         return
     c.audit("Rink.Props.C06", THEOREMS)
     c.audit("Rink.Props.C06Target", TARGET_THEOREMS)
+    c.audit("Rink.Props.C06Dims", DIMS_THEOREMS)
     if c.thorough:
-        c.leanchecker(["Rink.Props.C06", "Rink.Props.C06Target"])
+        c.leanchecker(["Rink.Props.C06", "Rink.Props.C06Target", "Rink.Props.C06Dims"])
     st = vlib.eval_stream(c, "gen-c06", independent=True)
     if st is None:
         return
